@@ -190,6 +190,13 @@ class SNum:
     def _cmp(self, o, f):
         oz = _z(o)
         if oz is NotImplemented:
+            try:
+                fo = float(o)
+            except (TypeError, ValueError):
+                return NotImplemented
+            if fo == float('inf') or fo == float('-inf'):
+                # every symbolic number is finite
+                return bool(f(0.0, fo))
             return NotImplemented
         a, b = self.z, oz
         if a.is_int() != b.is_int():
